@@ -52,6 +52,21 @@ def opDocInline (c : Json) : R Json := do
   if !lineModelled l then return unmodelledJson
   return Json.mkObj [("inline", jstr (inlineComment l))]
 
+/-- op `doc.history`: {queries: [{kind: "scan", mro, names} | {kind: "help", mro, fields}]} ↦
+    {answers: [...]} — a sequence of look-ups made in ONE process on classes of one module (several
+    classes of an inheritance chain and unrelated classes with the same field names, in any order,
+    repeated).  The model is a pure function of (mro, field): every answer is the one-shot answer,
+    so any effect of the extractor's caches on a later look-up shows as a disagreement. -/
+def opDocHistory (c : Json) : R Json := do
+  let qs ← arr c "queries"
+  let outs ← qs.toList.mapM (fun q => do
+    match (← str q "kind") with
+    | "scan" => opDocScan q
+    | "help" => opDocHelp q
+    | k => throw s!"bad query kind {k}")
+  if outs.any (fun o => (o.getObjVal? "unmodelled").isOk) then return unmodelledJson
+  return Json.mkObj [("answers", Json.arr outs.toArray)]
+
 def parseQuote : String → R Quote
   | "\"\"\"" => .ok .dq
   | "'''" => .ok .sq
@@ -96,6 +111,6 @@ def opDocLayout (c : Json) : R Json := do
 
 def docScanOps : List (String × (Json → R Json)) :=
   [("doc.scan", opDocScan), ("doc.help", opDocHelp), ("doc.line", opDocLine), ("doc.layout", opDocLayout),
-   ("doc.inline", opDocInline)]
+   ("doc.inline", opDocInline), ("doc.history", opDocHistory)]
 
 end SpVerif.Drive
